@@ -45,6 +45,46 @@ def reaches(F, start_paths, target_paths, depth=3):
     return False
 
 
+def returns_quoted(F, path, qpaths, depth=0):
+    """every value the function can return is the result of the quoting function (directly or through a callee of this
+    module for which the same holds) or an empty string (the NULL cell): must-pass-through, not may-reach"""
+    if depth > 4 or path not in F.bodies:
+        return False
+    g = F.fn(path)
+    defs = g.defs()
+    seen, work = set(), ["0"]
+    while work:
+        pl = work.pop()
+        l = place_local(pl)
+        if l in seen:
+            continue
+        seen.add(l)
+        ds = defs.get(l, [])
+        if not ds and l != 0:
+            return False     # an argument or capture returned as it came
+        for bb, kind, payload in ds:
+            if kind == "call":
+                nm = payload.name
+                if nm in qpaths or (F.bodies.get(nm, {}).get("root") in qpaths):
+                    continue
+                last = nm.rsplit("::", 1)[-1]
+                if last == "new" and "String" in (payload.self_ty or nm):
+                    continue
+                if nm in F.bodies and nm.startswith(O + "::") and returns_quoted(F, nm, qpaths, depth + 1):
+                    continue
+                return False
+            dst, rv, line = payload
+            if rv[0] == "use":
+                if isinstance(rv[1], dict):
+                    continue
+                work.append(op_place(rv[1]))
+            elif rv[0] in ("ref", "cast"):
+                work.append(rv[2])
+            else:
+                return False
+    return True
+
+
 def run(F, R):
     R.rule("C40.R1", "K6 table agreement + provenance", "CSV trigger set ⊇ {',', '\"', LF, CR}; header and data cells both go through the quoting function")
     R.rule("C40.R2", "K4 arm/callee", "JSON string arms + keys via serde_json; float arms guard non-finite values")
@@ -68,7 +108,7 @@ def run(F, R):
         if mp:
             o = origin(wc, mp.args[1])
             if o[0] == "rv" and o[1][0] == "agg" and o[1][1].startswith("closure:"):
-                ok = reaches(F, [o[1][1][8:]], qpaths)
+                ok = reaches(F, [o[1][1][8:]], qpaths) and returns_quoted(F, o[1][1][8:], qpaths)
         R.check(ok, "C40.R1", f"write_csv:join#{n}:cells-quoted", "cells joined with ',' are not produced by the CSV quoting function (a header or value containing a delimiter breaks the row)", wc.loc(c.bb), dict(map_site=str(mp)))
 
     # ---- R2
